@@ -6,6 +6,14 @@ props=[json.loads(l) for l in open('/verif/properties.jsonl')]
 listed=set(l.split()[0] for l in subprocess.run(['/verif/bin/vischeck','-list'],capture_output=True,text=True).stdout.splitlines() if l.strip())
 TECH="static analysis over go/types + go/ssa of /repo's current tree: "
 CLAIMED={
+ 'C10':("per-backend CFG cuts (CheckPut gate, fallback lookup before not-found), store value classes for seal/lock, key-derivation flow to ToKey, constant masks vs DATATYPE table",
+        "Decides the agreement clauses for each db.Db implementation of the library on every path: lock refusal before any mutation, seal monotone, one key derivation with default-language fallback, recognisable not-found, documented type predicates, resource refuses unlocked stores, context setters always take effect. Map semantics over operation histories and listing are not decided."),
+ 'C11':("backward value flow from storage primitives to LookupKey fields (re-slicing, non-injective transformations), separator and path hygiene checks",
+        "Decides structural necessary conditions of an injective key encoding: the type byte is never stripped, keys always come from ToKey, only injective transformations lie between ToKey and the file name, setters always take effect. Seven known findings (legacy fallback name, unsanitised separator, raw key joined to the directory) are reported as such. Injectivity over all strings is not decided."),
+ 'C12':("protocol conformance of the Put path (allowed file operations, argument flow of Rename, ordering cuts), who-may-rename, IsNotFound guard before the fallback Save",
+        "Decides the shape of the write protocol on every path, which makes every crash point harmless: the record path is never opened for writing, the temporary file is complete and closed before the rename, success implies rename, nothing else renames onto records, and a load error other than not-found is never answered by overwriting. Atomicity of rename(2) is trusted."),
+ 'C13':("typestate of the transaction handle on the CFG (begin -> exactly one end on every path incl. error paths), error flow of commit, nil-guard and mode-flag ordering",
+        "Decides transaction hygiene on all paths, including the error paths no test takes: every begun transaction is ended once, commit errors reach the caller, local transactions are ended before every return, Abort/Stop/Close are nil-safe, explicit mode is entered only after a successful begin. Values returned after a fault are not decided."),
  'C01':("audited-return set (value identity with the argument of Sizer.Check on its ok edge), client-sink check, single-writer wiring of the limit, shape of the audit comparison",
         "Decides the bound itself for every size, template, content and history: every page string handed out is the very value that passed the final size audit (nothing concatenated after it), the audit compares the byte length with the configured field, and the limit is wired from Config.OutputSize into every reset of the renderer. It does not decide that content which could fit is never refused. One known finding (exit text written unaudited)."),
  'C03':("CFG cuts on the INCMP handler (gates, deciding comparison, IndexError edge), who-may-reset, value identity of the recorded input",
